@@ -22,7 +22,7 @@ import (
 
 type engine struct {
 	single, bigEntry, multiBlock, gapSeeks, gapGets, reopened, bloomCases int
-	corruptCases, readsAfterCorrupt                                       int
+	corruptCases, readsAfterCorrupt, liveCorruptCases                     int
 	corruptOnly                                                           bool
 	fid                                                                   uint64
 }
@@ -32,12 +32,12 @@ func (e *engine) Rule() string {
 		"1-4 versions per key, values 0..3 bytes or 40..400 bytes so that single entries exceed the block), block sizes 32..4096, bloom on/off; " +
 		"then get of every stored key and of neighbours (version+1/-1, absent keys), ascending and descending seeks to stored keys, gaps between blocks, " +
 		"before-first and after-last, full scans both ways; everything repeated after reopen; in ~30% of the small tables one bit inside a data block of the file is then flipped " +
-		"(any byte of the block incl. its trailer), the table reopened, and every stored key read twice plus seeks and scans both ways (block cache enabled, cache settled between reads); non-trivial = table with at least 2 blocks and at least one answered get and one non-empty seek"
+		"(in part of the cases the table is uncached on level 2, fully read first and the bit is flipped while it stays open; classes: checksum-length field, checksum, entry count, entry offsets, entry bytes; plus tables shaped so that a flipped length field lands in the window the as-is guard lets through), the table reopened, and every stored key read twice plus seeks and scans both ways (block cache enabled, cache settled between reads); non-trivial = table with at least 2 blocks and at least one answered get and one non-empty seek"
 }
 
 func (e *engine) Extra() map[string]any {
 	return map[string]any{"single_entry_tables": e.single, "tables_with_entry_larger_than_block": e.bigEntry, "multi_block_tables": e.multiBlock,
-		"seeks_between_blocks": e.gapSeeks, "gets_above_first_entry_of_a_later_block": e.gapGets, "cases_reopened": e.reopened, "tables_with_a_corrupted_block": e.corruptCases, "reads_after_corruption": e.readsAfterCorrupt, "tables_with_bloom": e.bloomCases,
+		"seeks_between_blocks": e.gapSeeks, "gets_above_first_entry_of_a_later_block": e.gapGets, "cases_reopened": e.reopened, "tables_with_a_corrupted_block": e.corruptCases, "of_which_corrupted_while_open_after_first_read_uncached": e.liveCorruptCases, "reads_after_corruption": e.readsAfterCorrupt, "tables_with_bloom": e.bloomCases,
 		"note": "counters include the re-executions of the shrinker"}
 }
 
@@ -97,6 +97,20 @@ func (e *engine) Gen(r *hlib.Rand, tier string) []string {
 			es = append(es, ent{u, v, val})
 		}
 	}
+	// chkLen-window tables: 1-byte user keys, one entry per block (tiny block size), value sizes such
+	// that the block is 40..43, 72..75 or 136..139 bytes long (8^32, 8^64, 8^128 = 40, 72, 136)
+	window := 0
+	if (e.corruptOnly && r.Chance(35)) || (!e.corruptOnly && r.Chance(8)) {
+		w := hlib.Pick(r, [][2]int{{5, 5}, {6, 37}, {7, 101}})
+		window = w[0]
+		es = es[:0]
+		seen = map[string]bool{}
+		m := 2 + r.Intn(5)
+		for len(es) < m {
+			u := []byte{byte(0x61 + len(es))}
+			es = append(es, ent{u, 1 + uint64(r.Intn(3)), fmt.Sprintf("r%d", w[1]+r.Intn(4))})
+		}
+	}
 	sort.Slice(es, func(i, j int) bool {
 		if c := bytes.Compare(es[i].u, es[j].u); c != 0 {
 			return c < 0
@@ -108,6 +122,9 @@ func (e *engine) Gen(r *hlib.Rand, tier string) []string {
 		parts = append(parts, fmt.Sprintf("%s:%d:%s", hlib.Hex(x.u), x.v, x.val))
 	}
 	bs := hlib.Pick(r, []int{32, 48, 64, 64, 96, 128, 256, 1024, 4096})
+	if window > 0 {
+		bs = 32
+	}
 	bloom := 0
 	bpk := 0
 	if r.Chance(70) {
@@ -117,7 +134,14 @@ func (e *engine) Gen(r *hlib.Rand, tier string) []string {
 		parts2 := strconv.FormatFloat(fp, 'g', -1, 64)
 		_ = parts2
 	}
-	ops := []string{fmt.Sprintf("build %d %d %d %s", bs, bloom, bpk, strings.Join(parts, ",")), "blocks"}
+	// live mode: table with the block cache disabled on level 2, every block read once while intact,
+	// then one bit flipped in the file while the table stays open, then everything read again
+	live := len(es) <= 14 && ((e.corruptOnly && r.Chance(40)) || (!e.corruptOnly && r.Chance(12)))
+	buildOp := "build"
+	if live {
+		buildOp = "buildnc"
+	}
+	ops := []string{fmt.Sprintf("%s %d %d %d %s", buildOp, bs, bloom, bpk, strings.Join(parts, ",")), "blocks"}
 	probe := func() {
 		k := 6 + r.Intn(14)
 		for i := 0; i < k; i++ {
@@ -162,9 +186,45 @@ func (e *engine) Gen(r *hlib.Rand, tier string) []string {
 		ops = append(ops, "reopen")
 		probe()
 	}
-	if len(es) <= 14 && (e.corruptOnly || r.Chance(30)) {
+	if live {
+		// first reads while intact: every stored key, and both scans
+		for _, x := range es {
+			ops = append(ops, fmt.Sprintf("get %s %d", hlib.Hex(x.u), x.v))
+		}
+		ops = append(ops, "scan asc", "scan desc")
+	}
+	if len(es) <= 14 && (e.corruptOnly || live || window > 0 || r.Chance(30)) {
 		// flip one bit inside one data block, reopen, then read everything at least twice
-		ops = append(ops, fmt.Sprintf("corrupt %d %d %d", r.Intn(8), r.Intn(4096), r.Intn(8)))
+		// where the bit goes: the block trailer is hit deliberately —
+		//   chkLen (last 4 bytes), checksum (8 bytes before), entry count (4 before), entry offsets, entries
+		pos := ""
+		bit := r.Intn(8)
+		switch x := r.Intn(100); {
+		case x < 25:
+			pos = fmt.Sprintf("e%d", r.Intn(4))
+		case x < 45:
+			pos = fmt.Sprintf("e%d", 4+r.Intn(8))
+		case x < 60:
+			pos = fmt.Sprintf("e%d", 12+r.Intn(4))
+		case x < 75:
+			pos = fmt.Sprintf("e%d", 16+r.Intn(8))
+		default:
+			pos = strconv.Itoa(r.Intn(4096))
+		}
+		blk := r.Intn(8)
+		if window > 0 {
+			// the table was shaped so that a block length falls into a window (L-4, L] of a value the
+			// length field 8 can take after one flip: aim at exactly that bit of the last block byte
+			pos, bit = "e0", window
+			if r.Chance(30) {
+				bit = r.Intn(8)
+			}
+		}
+		if live {
+			ops = append(ops, fmt.Sprintf("corruptlive %d %s %d", blk, pos, bit))
+		} else {
+			ops = append(ops, fmt.Sprintf("corrupt %d %s %d", blk, pos, bit))
+		}
 		for rep := 0; rep < 2; rep++ {
 			for _, x := range es {
 				ops = append(ops, fmt.Sprintf("get %s %d", hlib.Hex(x.u), x.v))
@@ -254,27 +314,44 @@ func (e *engine) Exec(ops []string) []string {
 	}()
 	var bases [][]byte
 	corrupted := false
+	uncached := false
 	for i, op := range ops {
 		if corrupted && t != nil {
 			// let the asynchronous block cache apply what earlier reads inserted
 			t.SettleCaches()
 		}
 		f := strings.Fields(op)
-		if f[0] != "build" && t == nil {
+		if f[0] != "build" && f[0] != "buildnc" && t == nil {
 			out[i] = "no-table"
 			continue
 		}
 		switch f[0] {
-		case "corrupt":
+		case "corrupt", "corruptlive":
+			live := f[0] == "corruptlive"
+			if live && !uncached {
+				out[i] = "bad-op"
+				continue
+			}
 			bi, _ := strconv.Atoi(f[1])
-			by, _ := strconv.Atoi(f[2])
 			bit, _ := strconv.Atoi(f[3])
 			rs := t.BlockRanges()
 			rg := rs[bi%len(rs)]
-			off := int64(rg[0] + by%rg[1])
+			var off int64
+			if strings.HasPrefix(f[2], "e") {
+				// e<k>: k bytes before the last byte of the block (the trailer is addressed from the end)
+				k, _ := strconv.Atoi(f[2][1:])
+				off = int64(rg[0] + rg[1] - 1 - k%rg[1])
+			} else {
+				by, _ := strconv.Atoi(f[2])
+				off = int64(rg[0] + by%rg[1])
+			}
 			name := t.FileName()
 			out[i] = guard(func() string {
-				t.Close()
+				if !live {
+					t.Close()
+				}
+				// live: the table stays open; the write goes through a separate descriptor and is
+				// visible to the reader's MAP_SHARED mapping
 				fh, err := os.OpenFile(name, os.O_RDWR, 0)
 				if err != nil {
 					return "err"
@@ -291,14 +368,25 @@ func (e *engine) Exec(ops []string) []string {
 				}
 				_ = fh.Sync()
 				fh.Close()
+				if live {
+					return "ok"
+				}
 				if err := t.Reopen(); err != nil {
 					return "err"
 				}
 				return "ok"
 			})
+			if live {
+				e.liveCorruptCases++
+			}
 			corrupted = true
 			e.corruptCases++
-		case "build":
+			if out[i] == "panic" {
+				// openTable itself died on the corrupted last block: there is no table any more
+				t = nil
+			}
+		case "build", "buildnc":
+			uncached = f[0] == "buildnc"
 			corrupted = false
 			if t != nil {
 				t.Close()
@@ -317,7 +405,11 @@ func (e *engine) Exec(ops []string) []string {
 			e.fid++
 			out[i] = guard(func() string {
 				var err error
-				t, err = lsm.VerifBuildTable(dir, e.fid, bs, fp, es)
+				if uncached {
+					t, err = lsm.VerifBuildTableUncached(dir, e.fid, bs, fp, es)
+				} else {
+					t, err = lsm.VerifBuildTable(dir, e.fid, bs, fp, es)
+				}
 				if err != nil {
 					t = nil
 					return "err"
@@ -341,8 +433,9 @@ func (e *engine) Exec(ops []string) []string {
 			}
 		case "blocks":
 			var parts []string
-			for _, b := range t.BlockBaseKeys() {
-				parts = append(parts, keyStr(b))
+			rs := t.BlockRanges()
+			for j, b := range t.BlockBaseKeys() {
+				parts = append(parts, fmt.Sprintf("%s:%d", keyStr(b), rs[j][1]))
 			}
 			out[i] = strings.Join(parts, ",")
 		case "reopen":
@@ -353,6 +446,9 @@ func (e *engine) Exec(ops []string) []string {
 				return "ok"
 			})
 			e.reopened++
+			if out[i] == "panic" {
+				t = nil
+			}
 		case "get":
 			if corrupted {
 				e.readsAfterCorrupt++
